@@ -366,6 +366,66 @@ def runNode (nodes : Nat → Node) (st : Store) (i : Nat) : Store × Bool × Lis
 
 def nodeSem (nodes : Nat → Node) : Sem Store := { react := runNode nodes }
 
+/-! ## Part C — what a macro does to a hand-made wiring (`Macro._configure_graph_execution`)
+
+A macro whose graph creator made run-signal connections and named starting nodes is "left alone" — by
+`run_signals = self.disconnect_run()` (to find out whether there are any) followed by
+`_reconnect_run(run_signals)`, pair by pair. Connecting prepends, so the lists come back in another order.
+Then the remaining UI nodes are put upstream of the starting nodes. -/
+
+/-- the three connection tables of the children of one composite -/
+structure Wiring where
+  out : Sig → List Recv          -- `OutputSignal.connections`
+  runIn : Nat → List Sig         -- `signals.input.run.connections`
+  accIn : Nat → List Sig         -- `signals.input.accumulate_and_run.connections`
+
+def Wiring.empty : Wiring := { out := fun _ => [], runIn := fun _ => [], accIn := fun _ => [] }
+
+/-- the connection list of a receiving channel -/
+def Wiring.inList (w : Wiring) (r : Recv) : List Sig := if r.acc then w.accIn r.node else w.runIn r.node
+
+/-- `Channel.connect` between an emitting channel and a `run` / `accumulate_and_run` input: nothing if
+already connected, else prepended on both sides -/
+def Wiring.connect (w : Wiring) (s : Sig) (r : Recv) : Wiring :=
+  if (w.out s).contains r then w
+  else
+    { out := updF w.out s (r :: w.out s),
+      runIn := if r.acc then w.runIn else updF w.runIn r.node (s :: w.runIn r.node),
+      accIn := if r.acc then updF w.accIn r.node (s :: w.accIn r.node) else w.accIn }
+
+/-- `Composite.disconnect_run()`: the destroyed (input, output) pairs — child by child in insertion order,
+`run` before `accumulate_and_run`, each in list order -/
+def Wiring.runPairs (w : Wiring) : List Nat → List (Sig × Recv)
+  | [] => []
+  | i :: rest =>
+    (w.runIn i).map (fun s => (s, ({ node := i, acc := false } : Recv))) ++
+      ((w.accIn i).map (fun s => (s, ({ node := i, acc := true } : Recv))) ++ runPairs w rest)
+
+/-- `for pair in pairs: pair[0].connect(pair[1])` -/
+def Wiring.connectAll (w : Wiring) : List (Sig × Recv) → Wiring
+  | [] => w
+  | p :: rest => (w.connect p.1 p.2).connectAll rest
+
+/-- the pinned macro disconnects every run signal and reconnects pair by pair; the repaired one
+(`fixes/C02-macro-keep-signal-order.patch`) only looks -/
+def Wiring.reconfigure (pinned : Bool) (w : Wiring) (children : List Nat) : Wiring :=
+  if pinned then Wiring.empty.connectAll (w.runPairs children) else w
+
+/-- `n << ui_nodes` for one starting node -/
+def Wiring.waitFor (w : Wiring) (n : Nat) : List Nat → Wiring
+  | [] => w
+  | u :: rest => (w.connect (sigRan u) { node := n, acc := true }).waitFor n rest
+
+/-- `for n in starting_nodes: n << ui_nodes`, then the UI nodes (if any) are the starting nodes -/
+def Wiring.putUiFirst (w : Wiring) (ui : List Nat) : List Nat → Wiring
+  | [] => w
+  | n :: rest => (w.waitFor n ui).putUiFirst ui rest
+
+def uiStarters (ui starters : List Nat) : List Nat := if ui.isEmpty then starters else ui
+
+def Wiring.toGraph (w : Wiring) (lab : Sig → Label) (starters : List Nat) (sigs : List Sig) : Graph :=
+  { conns := w.out, accConns := w.accIn, lab := lab, starters := starters, sigs := sigs }
+
 /-! ### Finite presentation of a signal graph (what the harness reads off the real objects) and the
 decidable counterpart of the hypotheses `WF` of `C02_refines_queue` (soundness: `FinGraph.check_sound`) -/
 
